@@ -1,0 +1,111 @@
+// Copyright 2021 The Cockroach Authors.
+//
+// Licensed under the Apache License, Version 2.0 (the "License");
+// you may not use this file except in compliance with the License.
+// You may obtain a copy of the License at
+//
+//     http://www.apache.org/licenses/LICENSE-2.0
+//
+// Unless required by applicable law or agreed to in writing, software
+// distributed under the License is distributed on an "AS IS" BASIS,
+// WITHOUT WARRANTIES OR CONDITIONS OF ANY KIND, either express or
+// implied. See the License for the specific language governing
+// permissions and limitations under the License.
+
+//go:build verif
+// +build verif
+
+package rfmt
+
+// This file is only compiled with the build tag "verif". It exposes
+// the printer pool as a seam so that a deterministic simulation
+// harness can decide which printer every call receives, and a
+// read-only view of a printer's per-call state.
+
+// VerifPrinter is an opaque handle on a printer object.
+type VerifPrinter = pp
+
+// VerifGetHook, when non-nil, is called by newPrinter with the
+// printer obtained from the real pool; the printer it returns is the
+// one the call uses.
+var VerifGetHook func(fromPool *VerifPrinter) *VerifPrinter
+
+// VerifPutHook, when non-nil, is called by free right before the
+// printer would be handed to the real pool. When it returns true the
+// printer is not handed to the real pool.
+var VerifPutHook func(p *VerifPrinter) bool
+
+func verifPoolGet(p *pp) *pp {
+	if h := VerifGetHook; h != nil {
+		return h(p)
+	}
+	return p
+}
+
+func verifPoolPut(p *pp) bool {
+	if h := VerifPutHook; h != nil {
+		return h(p)
+	}
+	return false
+}
+
+// VerifPrinterState is a read-only copy of the per-call state of a
+// printer.
+type VerifPrinterState struct {
+	Override    int
+	ArgNil      bool
+	ValueValid  bool
+	Flags       uint32
+	Wid, Prec   int
+	Reordered   bool
+	GoodArgNum  bool
+	Panicking   bool
+	Erroring    bool
+	WrapErrs    bool
+	WrappedErr  bool
+	BufLen      int
+	BufCap      int
+	BufMode     int
+	BufOpen     bool
+	BufValid    int
+	BufCapBytes []byte // alias of the backing array up to capacity
+}
+
+// VerifState returns the per-call state of p.
+func VerifState(p *VerifPrinter) VerifPrinterState {
+	var fl uint32
+	for i, b := range []bool{
+		p.fmt.widPresent, p.fmt.precPresent, p.fmt.minus, p.fmt.plus,
+		p.fmt.sharp, p.fmt.space, p.fmt.zero, p.fmt.plusV, p.fmt.sharpV,
+	} {
+		if b {
+			fl |= 1 << uint(i)
+		}
+	}
+	mode, open, valid, l, c, all := p.buf.Buffer.VerifState()
+	return VerifPrinterState{
+		Override:    int(p.override),
+		ArgNil:      p.arg == nil,
+		ValueValid:  p.value.IsValid(),
+		Flags:       fl,
+		Wid:         p.fmt.wid,
+		Prec:        p.fmt.prec,
+		Reordered:   p.reordered,
+		GoodArgNum:  p.goodArgNum,
+		Panicking:   p.panicking,
+		Erroring:    p.erroring,
+		WrapErrs:    p.wrapErrs,
+		WrappedErr:  p.wrappedErr != nil,
+		BufLen:      l,
+		BufCap:      c,
+		BufMode:     mode,
+		BufOpen:     open,
+		BufValid:    valid,
+		BufCapBytes: all,
+	}
+}
+
+// VerifPoison overwrites the spare capacity of p's buffer.
+func VerifPoison(p *VerifPrinter, c byte) int {
+	return p.buf.Buffer.VerifPoison(c)
+}
